@@ -11,7 +11,7 @@ CONSTANTS
   MaxResults = 1
   KindSet = {"ok", "nr"}
   BuCap = 1
-  FixF22 = TRUE
+  FixF34 = TRUE
   GenHist = FALSE
 INIT Init
 NEXT Next
